@@ -7,7 +7,7 @@ import shutil
 import subprocess
 import time
 
-from engine import BIN, VERIF, run, tool_env, scratch
+from engine import BIN, VERIF, REPO, run, tool_env, scratch
 
 SHIM = os.path.join(VERIF, 'harness', 'shim')
 
@@ -94,7 +94,8 @@ class Proj:
         if env:
             e.update(env)
         if shim:
-            e.update({'BFG9000_VERIF': '1', 'PYTHONPATH': SHIM,
+            e.update({'BFG9000_VERIF': '1', 'PYTHONPATH': SHIM + (
+                ':' + REPO if REPO != '/repo' else ''),
                       'BFG9000_VERIF_ROOT': self.bld})
             e.update(shim)
         cmd = (['make'] if self.backend == 'make' else
